@@ -112,7 +112,7 @@ def symmetries(cx, plane, what):
 PHASES = [(3, 4, 5), (5, 12, 13), (8, 15, 17)]     # exact points of the unit circle (a + i b)/c
 
 
-def _pathway_sums(cx, energies, dips, mult, evolve=False, widths=None):
+def _pathway_sums(cx, energies, dips, mult, evolve=False, widths=None, pol="XXXX"):
     """real Aggregate.build/diagonalize/liouville_pathways_3T with symbolic site dipoles, concrete
     site energies, zero coupling, waiting time 0 (identity evolution), all-parallel polarisations;
     returns {(type, w1, w3): sum of prefactors}"""
@@ -175,7 +175,9 @@ def _pathway_sums(cx, energies, dips, mult, evolve=False, widths=None):
         U._data = Ud
     with cx.concrete():
         lab = qr.LabSetup()
-        lab.set_pulse_polarizations(pulse_polarizations=(X, X, X), detection_polarization=X)
+        from quantarhei.utils.vectors import Y
+        v = [dict(X=X, Y=Y)[ch] for ch in pol]
+        lab.set_pulse_polarizations(pulse_polarizations=(v[0], v[1], v[2]), detection_polarization=v[3])
     types = ("R1g", "R2g", "R3g", "R4g", "R1f*", "R2f*") if mult > 1 and n > 1 else ("R1g", "R2g", "R3g", "R4g")
     pws = agg.liouville_pathways_3T(ptype=types, eUt=U, ham=agg.get_Hamiltonian(), t2=0.0 if not evolve else 10.0,
                                     lab=lab)
@@ -192,11 +194,14 @@ def _pathway_sums(cx, energies, dips, mult, evolve=False, widths=None):
 
 @harness("C12", "uncoupled_additivity",
          quick=[dict(energies=[1.0, 1.2]), dict(energies=[1.0, 1.2], evolve=True),
-                dict(energies=[1.2, 1.0], widths=[0.09, 0.16]), dict(energies=[1.3, 1.0, 1.15], widths=[0.1936, 1.3689, 5.76])],
+                dict(energies=[1.2, 1.0], widths=[0.09, 0.16]), dict(energies=[1.3, 1.0, 1.15], widths=[0.1936, 1.3689, 5.76]),
+                dict(energies=[1.0, 1.2], evolve=True, pol="XYXY")],
          thorough=[dict(energies=[1.0, 1.2]), dict(energies=[1.0, 1.15, 1.3]), dict(energies=[1.0, 1.2], evolve=True),
                    dict(energies=[1.0, 1.15, 1.3], evolve=True), dict(energies=[1.2, 1.0], widths=[0.09, 0.16])] +
                   [dict(energies=list(e), widths=[0.1936, 1.3689, 5.76]) for e in
-                   ((1.0, 1.15, 1.3), (1.15, 1.0, 1.3), (1.3, 1.0, 1.15), (1.15, 1.3, 1.0), (1.3, 1.15, 1.0))],
+                   ((1.0, 1.15, 1.3), (1.15, 1.0, 1.3), (1.3, 1.0, 1.15), (1.15, 1.3, 1.0), (1.3, 1.15, 1.0))] +
+                  [dict(energies=[1.0, 1.2], evolve=True, pol=q) for q in ("XXYY", "XYXY", "XYYX")] +
+                  [dict(energies=[1.0, 1.15, 1.3], pol="XYYX")],
          functions=["quantarhei/builders/aggregate_spectroscopy.py:liouville_pathways_3T",
                     "quantarhei/builders/aggregate_spectroscopy.py:generate_R1g",
                     "quantarhei/builders/aggregate_spectroscopy.py:generate_R2g",
@@ -211,13 +216,13 @@ def _pathway_sums(cx, energies, dips, mult, evolve=False, widths=None):
                "arbitrary (generic: above the tolerance filter) site dipole vectors, waiting time 0 (identity) and "
                "a non-zero waiting time with the unitary evolution of independent molecules (exact rational points "
                "of the unit circle as the molecules' phases, so coherences during t2 are not real), all-parallel "
-               "polarisations; molecules listed in any energy order with different phenomenological line widths "
+               "and (thorough) the crossed XXYY, XYXY, XYYX polarisations; molecules listed in any energy order with different phenomenological line widths "
                "(the widths of the first and third interval are part of the peak's identity): "
                "summed pathway prefactors at every cross-peak position vanish (ESA cancels GSB+SE), "
                "and at every diagonal position equal those of the molecule taken alone, separately for the "
                "rephasing and non-rephasing signals",
-         out="line shapes, relaxation during the waiting time, coupled aggregates, other polarisation sequences")
-def uncoupled_additivity(cx, energies, evolve=False, widths=None):
+         out="line shapes, relaxation during the waiting time, coupled aggregates, oblique polarisations")
+def uncoupled_additivity(cx, energies, evolve=False, widths=None, pol="XXXX"):
     # widths: squares whose pairwise sums are squares too (Euler brick 44, 117, 240), so that every square root
     # the code takes of a width is an exact rational and the widths stay concrete numbers in symbolic mode
     n = len(energies)
@@ -225,12 +230,12 @@ def uncoupled_additivity(cx, energies, evolve=False, widths=None):
     for d in dips:
         cx.assume(numpy.dot(d, d) > 0.01, "generic dipoles: |d|^2 above the tolerance filter")
         cx.assume(numpy.dot(d, d) < 100.0)
-    sums, npw = _pathway_sums(cx, energies, dips, 2, evolve=evolve, widths=widths)
+    sums, npw = _pathway_sums(cx, energies, dips, 2, evolve=evolve, widths=widths, pol=pol)
     cx.prove("pathways_generated", npw > 0)
     mono = {}
     for i, (e, d) in enumerate(zip(energies, dips)):
         s1, _ = _pathway_sums(cx, [e], [d], 1, evolve=(i if i else True) if evolve else False,
-                              widths=None if widths is None else [widths[i]])
+                              widths=None if widths is None else [widths[i]], pol=pol)
         mono.update(s1)
     for key, val in sorted(sums.items()):
         typ, w1, w3 = key[:3]
